@@ -70,10 +70,10 @@ CLAIMED.update({
         note='Trusted: z3, stubs; numeral spellings and operator precedence are CPython\'s (outside the claim). // and % are decided for |A| < 2^23.',
         ref='6 C11'),
     'C13': dict(
-        text='CrossHair conditions on the real lex_tokens (comments with symbolic text, indentation, separator runs, per line kind) and on the whole assemble() of an 11-line program (blank lines, whole-line comments, indentation, trailing comments with symbolic counts at every position), each with a reachability twin; symx product for imm(reg) vs reg, imm on all 11 base+offset mnemonics in both modes; register spellings as a finite table. Weakest claim of the set: see evidence.outside_claim.',
-        note='Trusted: CrossHair 0.0.110 "Confirmed over all paths", z3, stubs. Bound: string lengths, counts and the single program template in evidence.',
+        text='Engine E1 on the real lex_tokens: a source line is one of 14 base lines plus a region of symbolic characters - a trailing / tight / whole-line comment of 8 (12) arbitrary characters, comments that start with a directive word, 6 symbolic blanks of indentation, symbolic blanks and commas in every separator run - and the tokens must be those of the base line for every choice (symbolic regex matcher over re._parser trees). CrossHair conditions on the real assemble() of an 11-line program (blank lines, whole-line comments, indentation, trailing comments with symbolic counts at every position), each with a reachability twin; symx product for imm(reg) vs reg, imm on all 11 base+offset mnemonics in both modes; register and numeral spellings as a finite table. CrossHair per-line lexer conditions run as a second engine (a counterexample is a violation, a non-confirmation a note).',
+        note='Trusted: z3, the regex / str models of symx/symstr.py (validated per path against CPython), CrossHair 0.0.110 "Confirmed over all paths" for the program-level conditions, stubs. Bound: text lengths, counts and the single program template in evidence.',
         ref='6 C13',
-        technique='CrossHair symbolic execution of the real lexer/assembler with PEP-316 contracts (per-condition confirmation), plus symx/z3 product queries for operand syntax'),
+        technique='bounded symbolic execution of the real lexer over symbolic text (symx proxies over z3, symbolic regex matcher) with per-path solver queries; CrossHair symbolic execution with PEP-316 contracts for the program-level conditions; symx/z3 product queries for operand syntax'),
 })
 
 CLAIMED.update({
